@@ -70,6 +70,27 @@ def quiet_logging():
     lg = logging.getLogger("pyrtcm")
     lg.addHandler(logging.NullHandler())
     lg.propagate = False
+    # one worker in three runs with the library's logger at DEBUG and a real formatting handler (into memory): what a
+    # deployment with verbose logging executes
+    try:
+        k = int(os.environ.get("PYTHONHASHSEED", "0") or 0)
+    except ValueError:
+        k = 0
+    if k % 3 == 1 and not getattr(lg, "_vf_debug", False):
+        class _FormatSink(logging.Handler):
+            """formats every record like a stream handler would, keeps nothing"""
+
+            def emit(self, record):
+                try:
+                    self.format(record)
+                except Exception:
+                    self.handleError(record)
+
+        h = _FormatSink()
+        h.setFormatter(logging.Formatter("%(asctime)s %(name)s %(levelname)s %(funcName)s %(message)s"))
+        lg.addHandler(h)
+        lg.setLevel(logging.DEBUG)
+        lg._vf_debug = True
 
 
 def recorded_logs(maxsize=400000):
